@@ -73,9 +73,9 @@ func (d vDeco) WrapConnection(data *bytes.Buffer, c net.Conn, phantom net.IP, rm
 			vc.d.log(e)
 			if sweep {
 				// the station's 3-minute sweeper runs right now - after the lookup found the registration, before the handler
-				// marks it: the registration has just outlived its 10 unused minutes
+				// marks it: the registration has just outlived its lifetime (10 unused minutes, 6 hours once used)
 				if m, ok := rm.(*cj.RegistrationManager); ok {
-					if dr, ok := reg.(*cj.DecoyRegistration); ok && cj.VerifBackdate(m, dr, 11*time.Minute) {
+					if dr, ok := reg.(*cj.DecoyRegistration); ok && cj.VerifBackdate(m, dr, 7*time.Hour) {
 						m.RemoveOldRegistrations()
 						if _, tracked := cj.VerifIsUsed(m, dr); !tracked {
 							vc.d.log(vEvent{"a": "Swept"})
@@ -123,6 +123,114 @@ type vWorld struct {
 	// the same few bytes): such cases are matched by exact content and accounted for per distinct content
 	wantSeen    map[string]int // cases of this world carrying that (short) data
 	wantMatched map[string]int // ... of which the station matched
+	// table operations between connections (validate / expire / re-register) replace a name's object: every object ever
+	// built for a name is remembered, so that a stale one that is matched is still recognised
+	rmu      sync.Mutex
+	regNames map[*cj.DecoyRegistration]string
+}
+
+func (w *vWorld) regByName(name string) *cj.DecoyRegistration {
+	w.rmu.Lock()
+	defer w.rmu.Unlock()
+	return w.regs[name]
+}
+
+func (w *vWorld) setReg(name string, reg *cj.DecoyRegistration) {
+	w.rmu.Lock()
+	defer w.rmu.Unlock()
+	w.regs[name] = reg
+	w.regNames[reg] = name
+}
+
+// buildReg builds a registration object from a registration message for the named session, as ingest does for every message
+func (w *vWorld) buildReg(rs vRegSpec) (*cj.DecoyRegistration, error) {
+	tt := vTransportType(rs.Transport)
+	gen := uint32(957)
+	ver := core.CurrentClientLibraryVersion()
+	tr, fl := true, false
+	covert := w.echoAddr
+	c2s := &pb.ClientToStation{Transport: &tt, DecoyListGeneration: &gen, ClientLibVersion: &ver, V4Support: &tr, V6Support: &fl,
+		CovertAddress: &covert, Flags: &pb.RegistrationFlags{Prescanned: &tr}}
+	if !rs.NilParams {
+		var params proto.Message
+		if rs.Transport == "prefix" {
+			id := rs.PrefixID
+			params = &pb.PrefixTransportParams{PrefixId: &id, RandomizeDstPort: &fl}
+		} else {
+			params = &pb.GenericTransportParams{RandomizeDstPort: &fl}
+		}
+		a, err := anypb.New(params)
+		if err != nil {
+			return nil, err
+		}
+		c2s.TransportParams = a
+	}
+	src := pb.RegistrationSource_API
+	c2sw := &pb.C2SWrapper{SharedSecret: vClassifySecret(rs.Secret, rs.NilParams), RegistrationPayload: c2s, RegistrationSource: &src,
+		RegistrationAddress: net.ParseIP("198.51.100.7").To4()}
+	isV6 := w.phantoms[rs.Phantom].To4() == nil
+	if isV6 {
+		// an IPv6 phantom: the client asks for IPv6, the registrar pins the address
+		c2s.V4Support, c2s.V6Support = &fl, &tr
+		c2sw.RegistrationResponse = &pb.RegistrationResponse{Ipv6Addr: w.phantoms[rs.Phantom].To16()}
+	} else {
+		ipu := binary.BigEndian.Uint32(w.phantoms[rs.Phantom].To4())
+		c2sw.RegistrationResponse = &pb.RegistrationResponse{Ipv4Addr: &ipu}
+	}
+	return w.rm.NewRegistrationC2SWrapper(c2sw, isV6)
+}
+
+// tableOp applies one operation of the registration table's history to the named session and reports what the table holds for it
+// afterwards: validate (the ingest worker's AddRegistration), expire (it outlived every lifetime and the sweeper ran), retrack (a new
+// registration message for a session the table no longer knows)
+func (w *vWorld) tableOp(op, name string) (vEvent, error) {
+	rs, ok := w.specs[name]
+	if !ok {
+		return nil, fmt.Errorf("table operation on unknown registration %q", name)
+	}
+	ev := vEvent{}
+	switch op {
+	case "validate":
+		reg := w.regByName(name)
+		if reg == nil {
+			return nil, fmt.Errorf("validate: %s was never tracked", name)
+		}
+		w.rm.AddRegistration(reg)
+		ev["a"] = "Validate"
+	case "expire":
+		reg := w.regByName(name)
+		if reg == nil || !cj.VerifBackdate(w.rm, reg, 7*time.Hour) {
+			return nil, fmt.Errorf("expire: %s has no expiry record", name)
+		}
+		w.rm.RemoveOldRegistrations()
+		ev["a"] = "SweepIdle"
+	case "retrack":
+		reg, err := w.buildReg(rs)
+		if err != nil {
+			return nil, err
+		}
+		exists, err := w.rm.TrackRegIfNotExists(reg)
+		if err != nil || exists {
+			return nil, fmt.Errorf("retrack: %s exists %v, err %v", name, exists, err)
+		}
+		w.setReg(name, reg)
+		ev["a"] = "Retrack"
+	default:
+		return nil, fmt.Errorf("unknown table operation %q", op)
+	}
+	ev["tab"] = w.regState(name)
+	return ev, nil
+}
+
+// regState: what the table holds under the named session's phantom address and identifier ("gone" | "tracked" | "valid")
+func (w *vWorld) regState(name string) string {
+	reg := w.regByName(name)
+	if reg == nil {
+		return "gone"
+	}
+	st := "blocked"
+	vGuard(func() { st = cj.VerifRegState(w.rm, reg) })
+	return st
 }
 
 // vClassifySecret derives the named secret of a world.  The station selects a phantom from the secret BEFORE the registrar's
@@ -256,7 +364,8 @@ func vTransportType(s string) pb.TransportType {
 
 func vNewWorld(t testing.TB, ws *vWorldSpec) *vWorld {
 	os.Setenv("PHANTOM_SUBNET_LOCATION", conjurepath.Root+"/pkg/station/lib/test/phantom_subnets.toml")
-	w := &vWorld{regs: map[string]*cj.DecoyRegistration{}, specs: map[string]vRegSpec{}, phantoms: map[string]net.IP{}}
+	w := &vWorld{regs: map[string]*cj.DecoyRegistration{}, specs: map[string]vRegSpec{}, phantoms: map[string]net.IP{},
+		regNames: map[*cj.DecoyRegistration]string{}}
 	w.priv, w.pub = vKeyFromSeed()
 	rm := cj.NewRegistrationManager(&cj.RegConfig{EnableIPv4: true, EnableIPv6: true})
 	if rm == nil {
@@ -279,40 +388,12 @@ func vNewWorld(t testing.TB, ws *vWorldSpec) *vWorld {
 		w.phantoms[n] = net.ParseIP(ip)
 	}
 	for _, rs := range ws.Regs {
-		tt := vTransportType(rs.Transport)
-		gen := uint32(957)
-		ver := core.CurrentClientLibraryVersion()
-		tr, fl := true, false
-		covert := w.echoAddr
-		c2s := &pb.ClientToStation{Transport: &tt, DecoyListGeneration: &gen, ClientLibVersion: &ver, V4Support: &tr, V6Support: &fl,
-			CovertAddress: &covert, Flags: &pb.RegistrationFlags{Prescanned: &tr}}
-		if !rs.NilParams {
-			var params proto.Message
-			if rs.Transport == "prefix" {
-				id := rs.PrefixID
-				params = &pb.PrefixTransportParams{PrefixId: &id, RandomizeDstPort: &fl}
-			} else {
-				params = &pb.GenericTransportParams{RandomizeDstPort: &fl}
-			}
-			a, err := anypb.New(params)
-			if err != nil {
-				t.Fatal(err)
-			}
-			c2s.TransportParams = a
+		if rs.State == "absent" {
+			// a session the table has not heard of (yet): a later table operation may register it
+			w.specs[rs.Name] = rs
+			continue
 		}
-		src := pb.RegistrationSource_API
-		c2sw := &pb.C2SWrapper{SharedSecret: vClassifySecret(rs.Secret, rs.NilParams), RegistrationPayload: c2s, RegistrationSource: &src,
-			RegistrationAddress: net.ParseIP("198.51.100.7").To4()}
-		isV6 := w.phantoms[rs.Phantom].To4() == nil
-		if isV6 {
-			// an IPv6 phantom: the client asks for IPv6, the registrar pins the address
-			c2s.V4Support, c2s.V6Support = &fl, &tr
-			c2sw.RegistrationResponse = &pb.RegistrationResponse{Ipv6Addr: w.phantoms[rs.Phantom].To16()}
-		} else {
-			ipu := binary.BigEndian.Uint32(w.phantoms[rs.Phantom].To4())
-			c2sw.RegistrationResponse = &pb.RegistrationResponse{Ipv4Addr: &ipu}
-		}
-		reg, err := rm.NewRegistrationC2SWrapper(c2sw, isV6)
+		reg, err := w.buildReg(rs)
 		if err != nil {
 			t.Fatalf("building registration %s: %v", rs.Name, err)
 		}
@@ -337,7 +418,7 @@ func vNewWorld(t testing.TB, ws *vWorldSpec) *vWorld {
 			cj.VerifBackdate(rm, reg, 11*time.Minute)
 			rm.RemoveOldRegistrations()
 		}
-		w.regs[rs.Name] = reg
+		w.setReg(rs.Name, reg)
 		w.specs[rs.Name] = rs
 	}
 	return w
@@ -370,6 +451,14 @@ type vCase struct {
 	SweepOnMatch bool `json:"sweep_on_match"`
 	// a legacy (client library v0) registration with this secret name is ingested right before the connection arrives
 	LegacyBefore string `json:"legacy_before"`
+	// histories of one phantom: the connection arrives after the named case has ended, and after these table operations
+	// ("validate:<reg>", "expire:<reg>", "retrack:<reg>") were applied, in order; Watch names the registration whose table entry
+	// is reported after every operation and when the connection is over
+	After string   `json:"after"`
+	Ops   []string `json:"ops"`
+	Watch string   `json:"watch"`
+	// a client that is not expected to be answered (interactive handshake) gives up after this long
+	ClientWaitMs int `json:"client_wait_ms"`
 }
 
 // vGuard runs f, a query of the registration table, and reports whether it came back: a table whose lock was leaked would
@@ -490,6 +579,19 @@ func (w *vWorld) runCase(cs *vCase) map[string]any {
 	st, peer := &vConn{d}, &vPeer{d: d}
 	var occT, occV int
 	rec := map[string]any{"case": cs.ID}
+	if len(cs.Ops) > 0 {
+		pre := []vEvent{}
+		for _, o := range cs.Ops {
+			op, name, _ := strings.Cut(o, ":")
+			ev, err := w.tableOp(op, name)
+			if err != nil {
+				rec["op_error"] = err.Error()
+				break
+			}
+			pre = append(pre, ev)
+		}
+		rec["pre"] = pre
+	}
 	if !vGuard(func() { occT, occV = cj.VerifTracked(w.rm, dst) }) {
 		rec["registry_blocked"] = true
 	}
@@ -530,13 +632,20 @@ func (w *vWorld) runCase(cs *vCase) map[string]any {
 				clientErr = "prepare: " + err.Error()
 				return
 			}
-			_ = peer.SetDeadline(time.Now().Add(12 * time.Second))
+			wait := 12 * time.Second
+			if cs.ClientWaitMs > 0 {
+				wait = time.Duration(cs.ClientWaitMs) * time.Millisecond
+			}
+			_ = peer.SetDeadline(time.Now().Add(wait))
 			wc, err := tr.WrapConn(peer)
 			d.mu.Lock()
 			flightLen = d.c2sWritten
 			d.mu.Unlock()
 			if err != nil {
 				clientErr = "wrap: " + err.Error()
+				if cs.PeerClose {
+					peer.Close()
+				}
 				return
 			}
 			conn = wc
@@ -697,11 +806,11 @@ func (w *vWorld) runCase(cs *vCase) map[string]any {
 	}
 	if matched != "" {
 		if mr, ok := d.matchedReg.(*cj.DecoyRegistration); ok && mr != nil {
-			for name, r := range w.regs {
-				if r == mr {
-					fin["matched_reg"] = name
-				}
+			w.rmu.Lock()
+			if name, ok := w.regNames[mr]; ok {
+				fin["matched_reg"] = name
 			}
+			w.rmu.Unlock()
 			if fin["matched_reg"] == nil {
 				fin["matched_reg"] = "unknown:" + hex.EncodeToString(mr.Keys.SharedSecret[:4])
 			}
@@ -711,6 +820,9 @@ func (w *vWorld) runCase(cs *vCase) map[string]any {
 			}
 			fin["used"], fin["tracked"] = used, tracked
 		}
+	}
+	if cs.Watch != "" {
+		fin["tab"] = w.regState(cs.Watch)
 	}
 	rec["ev"] = d.events
 	rec["final"] = fin
@@ -770,6 +882,10 @@ func TestVerifClassify(t *testing.T) {
 		}
 		sem := make(chan struct{}, par)
 		var wg sync.WaitGroup
+		ended := map[string]chan struct{}{}
+		for _, cs := range batch {
+			ended[cs.ID] = make(chan struct{})
+		}
 		for _, cs := range batch {
 			cs := cs
 			wg.Add(1)
@@ -777,6 +893,10 @@ func TestVerifClassify(t *testing.T) {
 			go func() {
 				defer wg.Done()
 				defer func() { <-sem }()
+				defer close(ended[cs.ID])
+				if prev, ok := ended[cs.After]; ok && cs.After != cs.ID {
+					<-prev // (listed earlier in the batch, so it holds its slot already)
+				}
 				if cs.StartMs > 0 {
 					time.Sleep(time.Duration(cs.StartMs) * time.Millisecond)
 				}
